@@ -36,7 +36,7 @@ THEOREMS = ["Kdf.Props.C15." + t for t in (
     "Kdf.Props.C09.filling_marks_restored"]
 
 WRAP = ("-Wl,--wrap=malloc,--wrap=calloc,--wrap=realloc,--wrap=strdup,--wrap=free," +
-        ",".join("--wrap=_kdumpfile_priv_cache_" + n for n in ("get_entry", "put_entry", "insert", "discard")))
+        ",".join("--wrap=_kdumpfile_priv_cache_" + n for n in ("get_entry", "put_entry", "insert", "discard", "release")))
 POLNAME = {0: "never", 1: "always", 2: "try", 3: "tryonce"}
 KNOWN = {
     "clone-dict-new-attrs": "attributes created through a clone made with KDUMP_CLONE_XLAT, clone freed before the original",
